@@ -929,18 +929,32 @@ pub fn main(args: &Args) {
     } else if let Some(d) = args.str("corpus") {
         stored = read_cases(Path::new(d));
     }
+    let tcp_stream = tcp::Tcp::new(&rt); // TCP transport stream (cases tagged 9000): c05_tcp.rs
     for c in &stored {
-        let (c2, t) =
-            catch_unwind(AssertUnwindSafe(|| run_stored(&rt, c))).unwrap_or((c.clone(), vec![PANIC_MARK]));
+        let (c2, t) = catch_unwind(AssertUnwindSafe(|| {
+            if tcp::Tcp::is_tcp_case(c) {
+                (c.clone(), tcp_stream.run_stored(&rt, c))
+            } else {
+                run_stored(&rt, c)
+            }
+        }))
+        .unwrap_or((c.clone(), vec![PANIC_MARK]));
         out.emit(&c2, &t);
     }
     if args.str("replay").is_some() {
         return;
     }
     let mut rng = Rng::new(seed ^ if focus_limits { 0x6006 } else { 0x5005 });
-    for _ in 0..ncases {
+    for i in 0..ncases {
         let mut r = rng.fork();
-        let (c, t) = run_generated(&rt, &mut r, thorough, focus_limits);
+        let (c, t) = if !focus_limits && i % tcp::share(thorough) == 9 {
+            tcp_stream.run_generated(&rt, &mut r, thorough)
+        } else {
+            run_generated(&rt, &mut r, thorough, focus_limits)
+        };
         out.emit(&c, &t);
     }
 }
+
+#[path = "c05_tcp.rs"]
+mod tcp;
